@@ -159,6 +159,9 @@ func (m *Machine) intrinsic(fn *ssa.Function, name string) (handler, bool) {
 	if h, ok := intrinsics[name]; ok {
 		return h, true
 	}
+	if strings.HasPrefix(name, "(*testing.") {
+		return hTestingT, true
+	}
 	if fn.Pkg != nil && fn.Pkg == m.P.Main || fn.Pkg != nil && m.P.isHarnessPkg(fn.Pkg) {
 		if strings.HasPrefix(fn.Name(), "vf") {
 			if h, ok := vfIntrinsics[fn.Name()]; ok {
@@ -1066,4 +1069,83 @@ func (m *Machine) panicText(v Value) string {
 func (m *Machine) ropeReplaceAll(s, old, nw Value) Value {
 	m.engineErr("strings.ReplaceAll on symbolic strings not modelled yet")
 	return nil
+}
+
+// ---- translator validation: the repository's own unit tests executed through the engine ----
+
+func hTestingT(m *Machine, fr *frame, fn *ssa.Function, a []Value) Value {
+	switch fn.Name() {
+	case "Error", "Errorf", "Fatal", "Fatalf", "Fail", "FailNow":
+		m.Res.Violations = append(m.Res.Violations, Violation{Harness: m.name, Label: "t." + fn.Name(), Pos: fr.curPos})
+	}
+	return m.zeroResults(fn)
+}
+
+func (m *Machine) isNilObject(v Value) bool {
+	i, ok := v.(Iface)
+	if !ok {
+		return false
+	}
+	if i.T == nil {
+		return true
+	}
+	switch x := i.V.(type) {
+	case *Value:
+		return x == nil
+	case Slice:
+		return x.Arr == nil
+	case *MapObj:
+		return x == nil
+	case *ChanObj:
+		return x == nil
+	case *Closure:
+		return x == nil
+	}
+	return false
+}
+
+func (m *Machine) recordTestAssert(fr *frame, name string, ok T) Value {
+	if ok.IsTrue() {
+		m.Res.Asserts["assert."+name]++
+	} else {
+		m.Res.Violations = append(m.Res.Violations, Violation{Harness: m.name, Label: "assert." + name, Pos: fr.curPos, Msg: ok.Pretty()})
+	}
+	return ok
+}
+
+func init() {
+	const pfx = "github.com/stretchr/testify/assert."
+	intrinsics[pfx+"Equal"] = func(m *Machine, fr *frame, fn *ssa.Function, a []Value) Value {
+		return m.recordTestAssert(fr, "Equal", m.deepEq(fr, a[1], a[2], map[[2]interface{}]bool{}))
+	}
+	intrinsics[pfx+"NotEqual"] = func(m *Machine, fr *frame, fn *ssa.Function, a []Value) Value {
+		return m.recordTestAssert(fr, "NotEqual", m.C.Not(m.deepEq(fr, a[1], a[2], map[[2]interface{}]bool{})))
+	}
+	intrinsics[pfx+"Nil"] = func(m *Machine, fr *frame, fn *ssa.Function, a []Value) Value {
+		return m.recordTestAssert(fr, "Nil", m.C.BoolC(m.isNilObject(a[1])))
+	}
+	intrinsics[pfx+"NotNil"] = func(m *Machine, fr *frame, fn *ssa.Function, a []Value) Value {
+		return m.recordTestAssert(fr, "NotNil", m.C.BoolC(!m.isNilObject(a[1])))
+	}
+	intrinsics[pfx+"NoError"] = func(m *Machine, fr *frame, fn *ssa.Function, a []Value) Value {
+		return m.recordTestAssert(fr, "NoError", m.C.BoolC(a[1].(Iface).T == nil))
+	}
+	intrinsics[pfx+"Error"] = func(m *Machine, fr *frame, fn *ssa.Function, a []Value) Value {
+		return m.recordTestAssert(fr, "Error", m.C.BoolC(a[1].(Iface).T != nil))
+	}
+	intrinsics[pfx+"True"] = func(m *Machine, fr *frame, fn *ssa.Function, a []Value) Value {
+		return m.recordTestAssert(fr, "True", a[1].(T))
+	}
+	intrinsics[pfx+"False"] = func(m *Machine, fr *frame, fn *ssa.Function, a []Value) Value {
+		return m.recordTestAssert(fr, "False", m.C.Not(a[1].(T)))
+	}
+	intrinsics[pfx+"GreaterOrEqual"] = func(m *Machine, fr *frame, fn *ssa.Function, a []Value) Value {
+		x, y := a[1].(Iface), a[2].(Iface)
+		xt, ok1 := x.V.(T)
+		yt, ok2 := y.V.(T)
+		if !ok1 || !ok2 {
+			m.engineErr("assert.GreaterOrEqual on non-numeric values")
+		}
+		return m.recordTestAssert(fr, "GreaterOrEqual", m.C.BvCmp(smt.OBvSle, yt, xt))
+	}
 }
